@@ -78,7 +78,7 @@ pub struct GenParams {
     pub exotic: bool,
 }
 
-const NAMES: [&str; 8] = ["A", "B", "C", "D", "robin", "bird", "x1", "Z9"];
+const NAMES: [&str; 14] = ["A", "B", "C", "D", "robin", "bird", "x1", "Z9", "E", "F", "G", "H", "tweety", "k2"];
 const EXOTIC_NAMES: [&str; 6] = ["", "a-b", "_u", "名", "is", "A "];
 
 fn gen_atom(ch: &mut Choices, p: &GenParams) -> Desc {
